@@ -279,6 +279,144 @@ struct Live {
     crlf: bool,
 }
 
+/// kind "flwl": the same operations through the public Logger / LoggerHandle API (log_to_file: the file writer sits
+/// behind the MultiWriter, operations are forwarded by the handle)
+struct LiveL {
+    log: Box<dyn log::Log>,
+    handle: flexi_logger::LoggerHandle,
+    crlf: bool,
+}
+thread_local! {
+    static VIA_LOGGER: std::cell::Cell<bool> = const { std::cell::Cell::new(false) };
+}
+pub fn run_case_via_logger(id: &str, toks: &[&str]) -> String {
+    VIA_LOGGER.with(|v| v.set(true));
+    let r = run_case(id, toks);
+    VIA_LOGGER.with(|v| v.set(false));
+    r
+}
+fn logger_of(c: &Cfg, dir: &Path, link: &Path) -> Result<(Box<dyn log::Log>, flexi_logger::LoggerHandle), flexi_logger::FlexiLoggerError> {
+    let mut l = flexi_logger::Logger::with(flexi_logger::LogSpecification::trace())
+        .log_to_file(file_spec(c, dir))
+        .format_for_files(raw_format)
+        .o_append(c.append)
+        .cleanup_in_background_thread(c.bg)
+        .error_channel(flexi_logger::ErrorChannel::File(errfile().clone()))
+        .write_mode(match (c.cap, c.asyn) {
+            (_, Some((pool_capa, message_capa))) => WriteMode::AsyncWith {
+                pool_capa,
+                message_capa,
+                flush_interval: std::time::Duration::from_secs(0),
+            },
+            (None, None) => WriteMode::Direct,
+            (Some(n), None) => WriteMode::BufferDontFlushWith(n),
+        });
+    if let Some((crit, naming, cleanup)) = c.rot {
+        l = l.rotate(crit, naming, cleanup);
+    }
+    if c.utc {
+        l = l.use_utc();
+    }
+    if c.link {
+        l = l.create_symlink(link);
+    }
+    if c.crlf {
+        l = l.use_windows_line_ending();
+    }
+    l.build()
+}
+fn exec_ops_via_logger(dir: &Path, link: &Path, tok: &str, live: &mut Option<LiveL>) -> String {
+    let p: Vec<&str> = tok.split(':').collect();
+    match p[0] {
+        "B" => {
+            let c = parse_cfg(p[1]);
+            match catch_unwind(AssertUnwindSafe(|| logger_of(&c, dir, link))) {
+                Ok(Ok((log, handle))) => {
+                    *live = Some(LiveL { log, handle, crlf: c.crlf });
+                    "r0".to_string()
+                }
+                Ok(Err(_)) => "r1".to_string(),
+                Err(_) => "r2".to_string(),
+            }
+        }
+        "W" => match live {
+            None => "r3".to_string(),
+            Some(l) => {
+                let mut b = unhex(p[1]);
+                let ending: &[u8] = if l.crlf { b"\r\n" } else { b"\n" };
+                assert!(b.ends_with(ending), "W payload must end with the line ending");
+                b.truncate(b.len() - ending.len());
+                *payload().lock().unwrap() = b;
+                let r = catch_unwind(AssertUnwindSafe(|| {
+                    l.log.log(&log::Record::builder().level(log::Level::Error).args(format_args!("x")).build())
+                }));
+                format!("r{}", if r.is_ok() { 0 } else { 2 })
+            }
+        },
+        "F" => match live {
+            None => "r3".to_string(),
+            Some(l) => format!("r{}", if catch_unwind(AssertUnwindSafe(|| l.handle.flush())).is_ok() { 0 } else { 2 }),
+        },
+        "T" => match live {
+            None => "r3".to_string(),
+            Some(l) => format!("r{}", code(catch_unwind(AssertUnwindSafe(|| l.handle.trigger_rotation())))),
+        },
+        "R" => match live {
+            None => "r3".to_string(),
+            Some(l) => format!("r{}", code(catch_unwind(AssertUnwindSafe(|| l.handle.reopen_output())))),
+        },
+        "X" => match live {
+            None => "r3".to_string(),
+            Some(l) => {
+                let c = parse_cfg(p[1]);
+                let b = builder(&c, dir, link);
+                let r = catch_unwind(AssertUnwindSafe(|| l.handle.reset_flw(&b)));
+                l.crlf = c.crlf;
+                format!("r{}", code(r))
+            }
+        },
+        "H" => match live {
+            None => "r3".to_string(),
+            Some(l) => format!("r{}", if catch_unwind(AssertUnwindSafe(|| l.handle.shutdown())).is_ok() { 0 } else { 2 }),
+        },
+        "S" => match live.take() {
+            None => "r3".to_string(),
+            Some(l) => {
+                let r = catch_unwind(AssertUnwindSafe(move || {
+                    drop(l.handle);
+                    drop(l.log);
+                }));
+                format!("r{}", if r.is_ok() { 0 } else { 2 })
+            }
+        },
+        "Q" => match live {
+            None => "r3".to_string(),
+            Some(l) => {
+                let flags = p[1].as_bytes();
+                let mut sel = if flags[0] == b'1' { LogfileSelector::default() } else { LogfileSelector::none() };
+                if flags[1] == b'1' {
+                    sel = sel.with_compressed_files();
+                }
+                if flags[2] == b'1' {
+                    sel = sel.with_r_current();
+                }
+                if let Some(c) = opt_unhex(p[2]) {
+                    sel = sel.with_custom_current(&ustr(&c));
+                }
+                match catch_unwind(AssertUnwindSafe(|| l.handle.existing_log_files(&sel))) {
+                    Ok(Ok(v)) => format!(
+                        "l0[{}]",
+                        v.iter().map(|pb| hex(pb.file_name().unwrap().to_string_lossy().as_bytes())).collect::<Vec<_>>().join(",")
+                    ),
+                    Ok(Err(_)) => "l1[]".to_string(),
+                    Err(_) => "l2[]".to_string(),
+                }
+            }
+        },
+        _ => "HARNESS-ERROR op-not-available-through-the-logger".to_string(),
+    }
+}
+
 /// Runs one case "<t0> <off> ; ops..." and returns the observation text.
 pub fn run_case(id: &str, toks: &[&str]) -> String {
     let t0: i64 = toks[0].parse().unwrap();
@@ -358,6 +496,7 @@ pub fn exec_ops(dir: &Path, link: &Path, t0: i64, ops: &[&str], drop_at_end: boo
     let _ = take_errors();
     let mut errs: Vec<String> = vec![];
     let mut live: Option<Live> = None;
+    let mut live_l: Option<LiveL> = None;
     install_sched();
     CL_DONE.store(CL_SENT.load(Ordering::SeqCst), Ordering::SeqCst);
     let mut exits = CL_EXIT.load(Ordering::SeqCst);
@@ -376,7 +515,9 @@ pub fn exec_ops(dir: &Path, link: &Path, t0: i64, ops: &[&str], drop_at_end: boo
             settle_cleanup(exits);
             exits = CL_EXIT.load(Ordering::SeqCst);
         }
+        let via = VIA_LOGGER.with(std::cell::Cell::get) && matches!(p[0], "B" | "W" | "F" | "T" | "R" | "X" | "H" | "S" | "Q" | "P");
         let o = match p[0] {
+            _ if via => exec_ops_via_logger(&dir, &link, tok, &mut live_l),
             "B" => {
                 let c = parse_cfg(p[1]);
                 let r = catch_unwind(AssertUnwindSafe(|| builder(&c, &dir, &link).try_build_with_handle()));
@@ -534,6 +675,12 @@ pub fn exec_ops(dir: &Path, link: &Path, t0: i64, ops: &[&str], drop_at_end: boo
         errs.extend(take_errors());
         scan_dir(&dir);
         emit(o);
+    }
+    if let Some(l) = live_l.take() {
+        let _ = catch_unwind(AssertUnwindSafe(move || {
+            drop(l.handle);
+            drop(l.log);
+        }));
     }
     if let Some(l) = live.take() {
         if drop_at_end {
